@@ -53,7 +53,9 @@ class Trees:
         env = []
         for it in items:
             k = it.get('k')
-            if k == 'use' and 'c' in it['a']:
+            if k == 'agg' and it.get('agg') == 'adt' and not it.get('ops'):
+                last = ('agg', it.get('adt'), it.get('variant'), {})       # a unit variant / unit struct constant
+            elif k == 'use' and 'c' in it['a']:
                 last = self.const(it['a']['c'])
             elif k == 'bin':
                 a = self.const(it['a']['c']) if 'c' in it['a'] else last
